@@ -2489,7 +2489,14 @@ impl TrustedRuntimeWal {
             next_lsn
         };
         let writer_epoch = store.acquire_runtime_writer_epoch(next_lsn)?;
-        let next_lsn = writer_epoch.started_at_lsn;
+        // A fresh epoch may be placed past an idle predecessor that committed nothing.
+        // The frame sequence itself continues at the recovered LSN: skipping it would
+        // leave a hole that every later recovery rejects as an LSN continuity break.
+        let next_lsn = if recovered_cursor.has_committed_history {
+            next_lsn
+        } else {
+            writer_epoch.started_at_lsn
+        };
         let writer_epoch = writer_epoch.epoch_id;
         let durability_mode = store.durability_mode();
         Ok(Self {
